@@ -4,13 +4,16 @@ ROOT = os.path.dirname(os.path.dirname(os.path.abspath(__file__)))
 sys.path.insert(0, ROOT)
 TECH = "contract-based deductive verification: VCs generated from clang's typed AST of the real C code (Python ast for the Python layer), sidecar contracts, z3 / ideal-membership / cvc5 back ends"
 NOTES = {
- "C01": ("operator word of every fixed-step scheme (WHFast all kernels/correctors/coordinates, SABA all 18 types, leapfrog, SEI, EOS 9x9, encounter-free MERCURIUS), extracted from the real part1/part2/synchronize, meets the free-algebra order conditions of its advertised order (first-order rounding envelope); IAS15 Gauss-Radau tables h, rr, c, d, w and their index use; BS sub-step sequence, extrapolation, modified midpoint and call order incl. particle write-back before user ODEs",
-         "exact sub-flows assumed (C02/C03/C12); convergence of the floating-point trajectory and adaptive step/order control not decided; jerk kick == [B,[A,B]] assumed; WHFast512 not compiled"),
- "C02": ("direct gravity routines: per-pair body contracts + iteration-space obligations (accumulation rule) against the softened Newtonian pair sum", "doubles as reals; accumulation rule trusted; tree walk and multipole bound not decided"),
- "C03": ("Stumpff/Stiefel functions (series, quadrupling, reduction), Newton fixed point => universal Kepler equation, f-g update (Wronskian, energy, angular momentum), hyperbolic bisection bracket = {dt/r_max, dt/r_min} ordered for both signs of dt, mass parameter per coordinate system and caller, proved on the real code",
-         "doubles as reals; exit-with-root of the iterations assumed; termination, NaN/overflow in floating point (native counterexample recorded) and WHFast512 not decided"),
- "C04": ("merge conserves mass/momentum/COM; diagnostics equal their definitions; COM steps; compensated summation", "doubles as reals; size of the energy error not decided"),
- "C05": ("descriptor table (as the compiler evaluates it) well formed against the real struct layout and complete: every member persisted, reconstructed or explicitly classified", "classification list is an assumption; bit-identical continuation argued from the persistence frame only"),
+ "C01": ("operator word of every fixed-step scheme (WHFast all kernels/correctors/coordinates, SABA all 18 types, leapfrog, SEI, EOS 9x9, encounter-free MERCURIUS), extracted from the real part1/part2/synchronize, meets the free-algebra order conditions of its advertised order (first-order rounding envelope); IAS15 Gauss-Radau tables and their index use; BS sub-step sequence, extrapolation, modified midpoint, call order; user ODEs advanced over exactly the completed step; jerk term matches the force; coordinate caches (WHFast p_jh, SEI sin/tan) belong to the current N and dt",
+         "exact sub-flows assumed (C02/C03/C12); convergence of the floating-point trajectory and adaptive step/order control not decided; WHFast512 not compiled"),
+ "C02": ("direct gravity routines and jerk: per-pair body contracts + iteration-space obligations (accumulation rule) against the softened Newtonian pair sum incl. ghost images at index x box edge; MERCURIUS/TRACE parts add up; tree node contract; every integrator establishes its own pair filter before its first force evaluation",
+         "doubles as reals; accumulation rule trusted; tree walk recursion and multipole bound not decided; pair-filter contract is structural (write summaries)"),
+ "C03": ("Stumpff/Stiefel functions (series, quadrupling, reduction), Newton fixed point => universal Kepler equation, f-g update (Wronskian, energy, angular momentum), hyperbolic bisection bracket, mass parameter per coordinate system and caller, coordinate cache follows N, proved on the real code; plus a labelled bounded native sweep of one WHFast step against the closed-form solution",
+         "doubles as reals; exit-with-root of the iterations assumed; termination and NaN/overflow in floating point not decided by proof (the bounded sweep reports one known finding: hyperbolic long steps); WHFast512 not compiled"),
+ "C04": ("merge conserves mass/momentum/COM; diagnostics equal their definitions; COM steps; pair sets and Sum m a = 0 of the force routines incl. MERCURIUS/TRACE parts (shared with C02), Kepler mass parameters (shared with C03), COM drift of unsynchronised WHFast/SABA (shared with C09); TRACE restores the centre of mass on a redone step",
+         "doubles as reals; size of the energy error not decided"),
+ "C05": ("descriptor table (as the compiler evaluates it) well formed against the real struct layout and complete: every member persisted, reconstructed or explicitly classified; writer emits exactly the table, reader inverts it per descriptor; loader rebuilds the tree iff in use; delta snapshots contain every changed field (shared with C06)",
+         "classification list is an assumption (one entry was found false and withdrawn); bit-identical continuation argued from the persistence frame only"),
  "C06": ("reb_binary_diff emits a well-formed delta stream and emits a field iff it differs (new/vanished fields, var_config member-wise), overlay of a delta on blob 0 by the loader reproduces the live values, heartbeat cadence bookkeeping per call",
          "byte content uninterpreted; induction over a whole run and >2 GiB offsets not decided"),
  "C07": ("archive open under an arbitrary truncation point (symbolic file length, short reads): heap ownership on every path, a blob is accepted only with consistent END+trailer, index within the file; append protocol of reb_simulation_save_to_file (trailer rewritten only after the delta is complete); native truncation sweep as labelled bounded stand-in",
@@ -21,11 +24,15 @@ NOTES = {
  "C10": ("JANUS step(-dt) o step(dt) = id on the integer state (floating point uninterpreted + IEEE oddness), symmetric schemes palindromic", "IEEE oddness/commutativity axioms; int64 overflow not modelled"),
  "C11": ("orbital element <-> Cartesian maps: rejections, definedness, defining relations, anomaly conversions", "doubles as reals; trig axioms per occurrence; Newton convergence not decided"),
  "C12": ("all coordinate transformations: forward definitions, slot 0 = (M, COM), inverses recover inputs, variants agree, memory safety; symbolic N, N_active", "doubles as reals; non-zero prefix masses as stated preconditions"),
- "C13": ("collision search predicates and resolve algebra (merge, hard sphere), index fix-up after removals", "doubles as reals; recursive tree search not decided"),
- "C14": ("abstract sequence view of add/remove/hash lookup incl. arbitrary stale lookup tables, memory safety, Python container index logic", "qsort contract assumed; integers mathematical"),
- "C15": ("boundary wrap loops, open-boundary removal, ghost boxes, tree local lemmas", "doubles as reals; global tree invariant not decided"),
+ "C13": ("collision search predicates (direct, line both signs of dt, tree leaf test), resolve algebra (merge, hard sphere), index fix-up after removals for sorted / unsorted / tree / hybrid-integrator removal, tree updated before it is walked",
+         "doubles as reals; recursive tree search not decided"),
+ "C14": ("abstract sequence view of add/remove/hash lookup incl. arbitrary stale lookup tables, N_active rule and N_active <= N - N_var, memory safety, Python container index logic",
+         "qsort contract assumed; integers mathematical"),
+ "C15": ("boundary wrap loops, open-boundary removal, ghost boxes, root-cell index arithmetic, tree local lemmas; a tree exists whenever a module uses it, also after load/copy (shared with C05); collision search updates the tree before walking it",
+         "doubles as reals; global tree invariant for arbitrary depth not decided"),
  "C16": ("variational force loops equal the symbolic derivative of the pair-force specification (1st and 2nd order, accumulation rule); all 65 derivative constructors equal the sympy derivative of the real forward map; add_variation / rescale / MEGNO bookkeeping; Python dispatch", "doubles as reals; Kepler-Pal solver through its summary contract; propagation by the integrators beyond the force routine, MEGNO->2 not decided"),
- "C17": ("reb_particle_diff differs iff a non-pointer member differs; compare-mode flag semantics of reb_binary_diff for arbitrary field sequences; no persisted array embedding addresses is compared byte-wise; copy reads the source only through the serialiser", "byte content uninterpreted; evolution of a copy argued from C05 only"),
+ "C17": ("reb_particle_diff differs iff a non-pointer member differs; compare-mode flag semantics of reb_binary_diff for arbitrary field sequences incl. both passes and full element loops; no persisted array embedding addresses is compared byte-wise; copy reads the source only through the serialiser, which writes every descriptor in every state (shared with C05)",
+         "byte content uninterpreted; evolution of a copy argued from C05 only"),
  "C18": ("exhaustive per-member comparison of clang record layouts with the ctypes classes, option tables vs C enums, setter/getter round trips", "x86-64 layout; alias table listed as assumptions"),
  "C19": ("whole-library frames: no written global state except reb_sigint, no non-reentrant libc, lockset around step and served serialisation, serialisation write frame", "data-race-freedom meta-theorem trusted; scheduling itself not modelled"),
  "C20": ("quaternion algebra and constructors incl. degenerate ones, unit conversions, frame shifts and linear combinations", "doubles as reals; reference constants table is an assumption"),
